@@ -226,7 +226,7 @@ func c05ContainerKeys(c *Ctx, r *Result) {
 			}
 		})
 	}
-	r.Floor("R05d-map-ops", nOps, 4)
+	r.Floor("R05d-map-ops", nOps, 3)
 	keys := func(m map[string][]string) []string {
 		var out []string
 		for k := range m {
